@@ -19,8 +19,8 @@ import mutate  # noqa: E402  (candidates / SWAPS)
 import translate as T  # noqa: E402
 
 W = "/tmp/mutfn"
-MODS = ["EvalexprVerif.Proofs." + m for m in ("AgreeFnValueType", "AgreeFnError", "AgreeFnValue", "AgreeFnNumeric", "AgreeFnContext", "AgreeFnOperator",
-                                                "AgreeFnTree", "AgreeFnInterface")]
+MODS = ["EvalexprVerif.Proofs." + m for m in ("AgreeFnValueType", "AgreeFnError", "AgreeFnValue", "AgreeFnNumeric", "AgreeFnBuiltin", "AgreeFnContext", "AgreeFnOperator",
+                                                "AgreeFnTree", "AgreeFnIter", "AgreeFnInterface")]
 
 
 def sh(cmd, cwd=None, env=None, timeout=900):
